@@ -537,6 +537,19 @@ func runJob(j job, in *input, shared []byte, private bool) (res result) {
 				}
 			}
 		}
+		// every uuid box of the tree gets another identity through its setter
+		var walk func(bs []mp4.Box, depth int)
+		walk = func(bs []mp4.Box, depth int) {
+			for _, b := range bs {
+				if u, ok := b.(*mp4.UUIDBox); ok {
+					_ = u.SetUUID("00112233-4455-6677-8899-aabbccddeeff")
+				}
+				if c, ok := b.(interface{ GetChildren() []mp4.Box }); ok && depth < 12 {
+					walk(c.GetChildren(), depth+1)
+				}
+			}
+		}
+		walk(f.Children, 0)
 		f.FragEncMode = mp4.EncFragFileMode(j.Mode & 1)
 		if err := f.Encode(&w); err != nil {
 			return fail("Encode", err)
